@@ -198,11 +198,35 @@ class ExecMixin:
 
     # ---------------------------------------------------------------- assignment
     def exec_Assign(self, st, state):
+        if isinstance(st.value, ast.IfExp):
+            # `t = a if c else b` is the statement `if c: t = a else: t = b`: each arm keeps its own term and the facts of its branch
+            self._assign_ifexp(st, st.value, state)
+            return
         v = self.eval(st.value, state)
         if state.bottom:
             return
         for t in st.targets:
             self.assign(t, v, state, st)
+
+    def _assign_ifexp(self, st, e: ast.IfExp, state: State) -> None:
+        t, f = self.branch(e.test, state)
+        pc0 = state.pc
+        for arm, expr in ((t, e.body), (f, e.orelse)):
+            if arm.bottom:
+                continue
+            if isinstance(expr, ast.IfExp):
+                sub = ast.Assign(targets=st.targets, value=expr)
+                ast.copy_location(sub, st)
+                self._assign_ifexp(sub, expr, arm)
+                continue
+            v = self.eval(expr, arm)
+            if arm.bottom:
+                continue
+            for tg in st.targets:
+                self.assign(tg, v, arm, st)
+        out = self.join(t, f)
+        out.pc = pc0
+        state.assign_from(out)
 
     def exec_AnnAssign(self, st, state):
         if st.value is None:
@@ -505,6 +529,46 @@ class ExecMixin:
                 self.exec_block(st.orelse, res)
         state.assign_from(res)
 
+    def others_of(self, seq: Seq, target, test: ast.expr, want: str, state: State, node) -> Optional[Seq]:
+        """When `test` (with the loop target bound to the element at a generic position) compares that position with the
+        position of an enclosing loop over equally many positions — `want` is 'Eq' for a skipping guard, 'NotEq' for a
+        selecting one — the loop runs over all positions but the enclosing loop's own: the sequence of the others
+        (length len - 1, element at oth(k)). None when the test is anything else."""
+        if not (isinstance(test, ast.Compare) and len(test.ops) == 1 and type(test.ops[0]).__name__ == want) or seq.length.term is None or seq.fixed is not None:
+            return None
+        if seq.flags & {"reordered", "building", "weak-append", "unmodelled", "dict-order", "others-of"} or seq.witness is not None:
+            return None
+        saved = (self.events, self.diags, self.obligations, self.raises, self.hooks, self.undecided)
+        self.events, self.diags, self.obligations, self.raises, self.hooks, self.undecided = [], {}, {}, [], {}, []
+        try:
+            st2 = state.copy()
+            self.assign(target, subst_val(seq.elem, {seq.kvar: ivar("$preview")}), st2, node)
+            if st2.bottom:
+                return None
+            l = self.eval(test.left, st2)
+            r = self.eval(test.comparators[0], st2)
+            bad = st2.bottom or self.raises or self.undecided
+        except Exception:
+            return None
+        finally:
+            self.events, self.diags, self.obligations, self.raises, self.hooks, self.undecided = saved
+            for k in [k for k in state.vars if False]:
+                pass
+        if bad or not (isinstance(l, Num) and isinstance(r, Num)) or l.sym is None or r.sym is None:
+            return None
+        a, b = l.sym, r.sym
+        if b == ("idx", ivar("$preview")):
+            a, b = b, a
+        if a != ("idx", ivar("$preview")) or b[0] != "idx" or b[1][0] != "v":
+            return None
+        outer = next((lc for lc in self.loops if lc.token == b[1][1]), None)
+        if outer is None or not outer.length.same(seq.length) or outer.seq is None or outer.seq.flags & {"reordered", "others-of"}:
+            return None
+        ln = seq.length
+        self.axiom("a loop that skips exactly the position of an enclosing loop over the same positions visits the other len - 1 positions in order")
+        return Seq(Length(("add", ln.term, -1), max(ln.lo - 1, 0), ln.hi - 1 if ln.hi != INF else INF), subst_val(seq.elem, {seq.kvar: ("oth", ivar(seq.kvar))}),
+                   seq.kvar, None, None, seq.flags | {"others-of"}, seq.kind)
+
     @staticmethod
     def _name_unknown_position(elem: Val, token: str) -> Val:
         """The element bound in one iteration is one object even when its position in its family is unknown ('*'): when
@@ -570,7 +634,18 @@ class ExecMixin:
         if seq is None or state.bottom:
             return
         self.event("for", st, seq=seq)
-        self.run_loop(seq, st, state, lambda elem, s: self.assign(st.target, elem, s, st), lambda s: self.exec_block(st.body, s))
+        body = st.body
+        # `for b in S: if pos(b) == pos(a): continue; BODY`  (a: an enclosing loop over as many positions)  ==  `for b in S \ {a}: BODY`
+        guard = None
+        if body and isinstance(body[0], ast.If) and not body[0].orelse and len(body[0].body) == 1 and isinstance(body[0].body[0], ast.Continue):
+            guard = (body[0].test, "Eq", body[1:])
+        elif len(body) == 1 and isinstance(body[0], ast.If) and not body[0].orelse:
+            guard = (body[0].test, "NotEq", body[0].body)
+        if guard is not None and guard[2]:
+            others = self.others_of(seq, st.target, guard[0], guard[1], state, st)
+            if others is not None:
+                seq, body = others, guard[2]
+        self.run_loop(seq, st, state, lambda elem, s: self.assign(st.target, elem, s, st), lambda s: self.exec_block(body, s))
         if st.orelse and not state.bottom:
             self.exec_block(st.orelse, state)
 
